@@ -865,7 +865,7 @@ impl World for Programs {
     }
     fn budget(&self, tier: Tier) -> (u64, u64) {
         match tier {
-            Tier::Quick => (700, 45),
+            Tier::Quick => (2500, 45),
             Tier::Thorough => (30_000, 900),
         }
     }
